@@ -284,3 +284,9 @@ def check(ctx):
     check_adapter(ctx, "R10-h", "CapacityLimiterAdapter", "_internal_limiter", "_limiter", "create_capacity_limiter", {},
                   value_members=("statistics",), pre_state={"total_tokens": "self._total_tokens = $V"})
     check_factory(ctx, "R10-h", "CapacityLimiter", "create_capacity_limiter", "CapacityLimiterAdapter")
+
+    # ---- R10-i the summary the guarded-write rules rest on (A3): checkpoint_if_cancelled() never yields and then returns normally --------
+    # (a task that could be suspended between the "is it free?" test and the write would let two tasks pass the test in one cycle)
+    from .walkers import check_cic, check_walker
+    check_cic(ctx, "R10-i")
+    check_walker(ctx, "R10-i", ctx.fn("AsyncIOBackend.checkpoint_if_cancelled", A))
